@@ -6,6 +6,8 @@ import (
 	"errors"
 	"fmt"
 	"strings"
+	"sort"
+	"sync"
 	"time"
 
 	"github.com/creachadair/jrpc2"
@@ -50,7 +52,7 @@ type cop struct {
 	Idx     int
 	Kind    opKind
 	Reqs    []*creq
-	CtxKind int // 0 background, 1 cancelled at a quiescent point, 2 deadline, 3 cancelled by a racing task, 4 already cancelled when invoked
+	CtxKind int // 0 background, 1 cancelled at a quiescent point, 2 deadline, 3 cancelled by a racing task, 4 already cancelled when invoked, 5 deadline that expires at whatever moment the scheduler gives the task that fires it
 	Cause   bool // created with WithCancelCause / WithTimeoutCause and a custom cause
 	CancelAfter int // kind 3: scheduling steps the cancelling task waits first
 	Gate    bool
@@ -169,7 +171,7 @@ func newCliWorld(r *Run, cfg cliCfg) *cliWorld {
 			w.byTag[q.Tag] = q
 		}
 		if cfg.Faults {
-			op.CtxKind = g.Weighted("opctx", []int{5, 3, 2, 2, 1})
+			op.CtxKind = g.Weighted("opctx", []int{5, 3, 2, 2, 1, 2})
 			op.Cause = g.Chance("ctxcause", 0.3)
 			op.CancelAfter = g.Int("cancelafter", 40)
 		}
@@ -210,16 +212,27 @@ func (w *cliWorld) options() *jrpc2.ClientOptions {
 		o.OnCallback = w.onCallback
 	}
 	if w.cfg.Hooks {
+		// the hooks are handed the client: in some runs they use it (a hook that
+		// is run with the client's lock held never returns then)
+		use := w.r.Gen.Chance("hooksuseclient", 0.4)
 		o.OnCancel = func(c *jrpc2.Client, rsp *jrpc2.Response) {
 			w.cancelLog = append(w.cancelLog, rsp.ID())
 			w.r.Ev("c.oncancel", rsp.ID(), 0, 0, "")
 			w.cancelCount[rsp.ID()]++
+			if use {
+				c.IsStopped()
+				w.r.Ev("c.oncancel.used", rsp.ID(), 0, 0, "")
+			}
 		}
 		o.OnStop = func(c *jrpc2.Client, err error) {
 			w.onStop = append(w.onStop, errStr(err))
 			w.onStopErr = append(w.onStopErr, err)
 			w.onStopSeq = append(w.onStopSeq, w.seq())
 			w.r.Ev("c.onstop", "", 0, 0, errStr(err))
+			if use {
+				c.IsStopped()
+				w.r.Ev("c.onstop.used", "", 0, 0, "")
+			}
 		}
 	}
 	return o
@@ -283,6 +296,24 @@ func (w *cliWorld) runOp(op *cop) {
 			ctx, c = context.WithTimeout(ctx, time.Minute)
 		}
 		defer c()
+	}
+	if op.CtxKind == 5 {
+		// a deadline that is not tied to quiescent points: the context is the
+		// harness's own, and a racing task makes it expire
+		sc := newSimCtx()
+		ctx = sc
+		w.r.Sim.Spawn(fmt.Sprintf("x-deadline%d", op.Idx), func() {
+			for i := 0; i < op.CancelAfter; i++ {
+				rt.Yield("deadline:delay")
+			}
+			if op.Done {
+				return
+			}
+			op.CancelSeq = w.seq()
+			w.r.Ev("ctx.deadline", fmt.Sprint(op.Idx), 0, 0, "")
+			sc.expire()
+			op.CancelEnd = w.seq()
+		})
 	}
 	switch op.CtxKind {
 	case 4:
@@ -723,5 +754,76 @@ func (w *cliWorld) stampArrivals() {
 			}
 			_ = arr
 		}
+	}
+}
+
+// simCtx is a context with a deadline that expires when the harness says so
+// (not at a quiescent point of the fake clock). It implements the AfterFunc
+// method the context package looks for, so derived contexts are cancelled
+// synchronously by the task that calls expire and no goroutine outside the
+// simulator's control is involved.
+type simCtx struct {
+	mu   sync.Mutex
+	done chan struct{}
+	err  error
+	dl   time.Time
+	fns  map[int]func()
+	n    int
+}
+
+func newSimCtx() *simCtx {
+	return &simCtx{done: make(chan struct{}), dl: time.Now().Add(time.Minute), fns: map[int]func(){}}
+}
+
+func (c *simCtx) Deadline() (time.Time, bool) { return c.dl, true }
+func (c *simCtx) Done() <-chan struct{}       { return c.done }
+func (c *simCtx) Value(any) any               { return nil }
+func (c *simCtx) Err() error {
+	c.mu.Lock()
+	defer c.mu.Unlock()
+	return c.err
+}
+
+func (c *simCtx) AfterFunc(f func()) (stop func() bool) {
+	c.mu.Lock()
+	if c.err != nil {
+		c.mu.Unlock()
+		f()
+		return func() bool { return false }
+	}
+	c.n++
+	k := c.n
+	c.fns[k] = f
+	c.mu.Unlock()
+	return func() bool {
+		c.mu.Lock()
+		defer c.mu.Unlock()
+		_, ok := c.fns[k]
+		delete(c.fns, k)
+		return ok
+	}
+}
+
+func (c *simCtx) expire() {
+	c.mu.Lock()
+	if c.err != nil {
+		c.mu.Unlock()
+		return
+	}
+	c.err = context.DeadlineExceeded
+	close(c.done)
+	var ks []int
+	for k := range c.fns {
+		ks = append(ks, k)
+	}
+	sort.Ints(ks)
+	var fs []func()
+	for _, k := range ks {
+		fs = append(fs, c.fns[k])
+	}
+	c.fns = map[int]func(){}
+	c.mu.Unlock()
+	for _, f := range fs {
+		f()
 	}
 }
